@@ -6,7 +6,7 @@ from .base import Outcome
 from .c01 import RailsProp, cfgclass
 
 
-TAILS = ["it's fine", "100% sure: yes", "one. two. three", "a, b; c", "e=mc^2 (approx.)", "ends with a colon:", "- dash first", "#hash and $dollar {brace}", "  two  spaces  ", "ünïcödé ✓", 'with "double quotes" inside', "back\\slash and /slash"]
+TAILS = ["it's fine", "100% sure: yes", "one. two. three", "a, b; c", "e=mc^2 (approx.)", "ends with a colon:", "- dash first", "#hash and $dollar {brace}", "  two  spaces  ", "ünïcödé ✓", 'with "double quotes" inside', "back\\slash and /slash", "first line\nsecond line", "para one\n\npara two"]
 
 
 class C02(RailsProp):
@@ -16,7 +16,7 @@ class C02(RailsProp):
     rule = ("one run = one generated configuration (Colang 1.0 modes or Colang 2.x guardrails library; 0-3 output rails, generated or shipped) and one 1-5 turn conversation with a seeded "
             "allow/block/rewrite verdict per (rail, LLM text). non-trivial = turns in which an output rail blocked or rewrote, or turns after such a turn; "
             "distinct = distinct (config class, rail kinds, what happened in earlier turns, this turn's verdict vector)")
-    expected_probes = ["output_block", "output_rewrite", "checked_after_output-block", "checked_after_options-output-off", "checked_after_empty-llm-message", "continued_through_state_object"]
+    expected_probes = ["output_block", "output_rewrite", "checked_after_output-block", "checked_after_options-output-off", "checked_after_empty-llm-message", "continued_through_state_object", "llm_text_multiline_in_reply"]
     quick_runs = 420
     thorough_runs = 30000
 
